@@ -1,4 +1,4 @@
-/* Positive control for C06: off-by-one read, word access through a byte buffer, write through const, variable shift. */
+/* Positive control for C06: off-by-one read, word access through a byte buffer, write through const (and an in-range variable shift that must stay silent). */
 #include <stddef.h>
 #include <stdint.h>
 #include <string.h>
@@ -10,7 +10,7 @@ void tinyjambu_hash(unsigned char *out, const unsigned char *in, size_t inlen)
         w ^= in[i];
     if (inlen >= 4)
         w ^= *(const uint32_t *)in;              /* word access through a byte buffer */
-    w = (w << (inlen & 31)) | (w >> 3);          /* variable shift */
+    w = (w << (inlen & 31)) | (w >> 3);          /* variable but in-range shift: must NOT be reported */
     ((unsigned char *)in)[0] = (unsigned char)w; /* write through const */
     memset(out, 0, 32);
     out[32] = (unsigned char)w;                  /* one past the 32-byte digest */
